@@ -456,7 +456,7 @@ class C12(Property):
             self.extra_coverage = {"small_scope_cases": total,
                                    "small_scope": "every single-subregion region (all starts/ends, also over the origin and "
                                                   "all the way round) on a line and a ring of 12 bases x 3 fixed gene layouts"}
-        n = 20000 if deep else 1500
+        n = 20000 if deep else 1200
         for i in range(n):
             r = rng.random()
             if r < 0.70:
@@ -580,6 +580,18 @@ class C12(Property):
             lo = rng.randint(0, max(0, end - size))
             case["peps"].append({"loc": simple(lo, lo + size, rng.choice([1, -1])), "name": "after",
                                  "lens": [1, size // 3 - 2, 1]})
+        # precursor peptides lying over the origin themselves: the origin inside the leader, the core or the tail,
+        # or between two sections, on either strand
+        for i in range(rng.choice([0, 1, 1, 2])):
+            lens = [rng.choice([0, 1, 2, 3]), rng.choice([1, 2, 3]), rng.choice([0, 1, 2, 3])]
+            size = 3 * sum(lens)
+            before = rng.randint(1, size - 1)            # bases of the peptide before the origin
+            before = min(before, length - start - 1)
+            after = size - before
+            if before < 1 or after < 1 or after > end:
+                continue
+            strand = rng.choice([1, -1])
+            case["peps"].append({"loc": span(length - before, after, length, strand), "name": f"overpep{i}", "lens": lens})
         return case
 
     def manual_candidate_case(self, rng: random.Random) -> Dict[str, Any]:
